@@ -198,7 +198,7 @@ REJ = re.compile(r"TRACE-REJECTED first unmatched line\D+(\d+)\D+(\d+)")
 
 
 NO_COVERAGE = {"Foreign_Trace.tla", "PubIn_Trace.tla", "Ecc_Trace.tla", "Field_Trace.tla", "CurveLib_Trace.tla",
-               "Hash_Trace.tla", "Msm_Trace.tla", "Pairing_Trace.tla", "Map_Trace.tla"}
+               "Hash_Trace.tla", "Msm_Trace.tla", "Pairing_Trace.tla", "Map_Trace.tla", "Htc_Trace.tla"}
 
 
 def validate_trace(trace_path, module, cfg, prop, timeout=1800, env=None):
